@@ -18,6 +18,10 @@ ARITH = ('+', '-', '*', '/')
 CMPS = ('=', '<>', '<', '>', '<=', '>=')
 OPS = ARITH + ('&',) + CMPS
 
+# delivery-channel differential (core.Env): of every 2 evaluations that bind variables, one is repeated with the
+# values handed in by the cell/range listeners and one with the values returned by custom functions; outcomes must agree
+CHANNELS = 2
+
 BOUNDS = {
     'quick': '72 error producers (incl. fresh error objects returned by a custom function or supplied as variable / cell value) (3 operator-made, 4 returned by built-ins, 3 raised by built-ins, 8 raised + 8 returned '
              'by a custom function, 8 raised as fresh error objects, 8 host variables, 8 host cells; 7 literals separately) x 11 operators x '
